@@ -70,6 +70,7 @@ def build_group_c(g, L0, allc, scratch, vacuity=False):
     """lower, splice contracts, return path of the C file and the function table"""
     L = L0.fork()
     L.fdiv_macro = bool(g.get('uf_fdiv'))
+    L.fp_uf = bool(g.get('uf_fp'))
     L.request(g['roots'], g.get('stubs', []))
     tab = L.function_table()
     def split(spec):
@@ -137,6 +138,8 @@ def build_group_c(g, L0, allc, scratch, vacuity=False):
         f.write('#define VF_CBMC 1\n')
         if g.get('uf_fdiv'):
             f.write('#define VF_UF_FDIV 1\n')
+        if g.get('uf_fp'):
+            f.write('#define VF_UF_FP 1\n')
         for k, v in g.get('defines', {}).items():
             f.write('#define %s %s\n' % (k, v))
         f.write('#include "%s"\n' % os.path.join(VERIF, 'include/vf.h'))
